@@ -233,3 +233,42 @@ func dumpMore(p *Prog, m *Models, args []string) int {
 	}
 	return 2
 }
+
+const textBalanced = "lock-balanced: a function that acquires a lock class (directly or through a callee) does not return with that class possibly still held, unless it is an acquire wrapper (returns holding it on every path) — a leaked database lock stalls every other client"
+
+// ruleLockBalanced: per function and class acquired inside it.
+func ruleLockBalanced(only func(lm *LockModel, cls int) bool) func(*Ctx) {
+	return func(c *Ctx) {
+		c.S.Rule("lock-balanced", textBalanced, 60)
+		lm := c.M.Locks()
+		for _, fn := range c.SrcFuncs() {
+			fl := lm.fl[fn]
+			// classes this function acquires somewhere (locally or via callee)
+			var acquired lockSet
+			for _, in := range instrsOf(fn) {
+				if st, ok := fl.at[in]; ok {
+					acquired |= st.may
+				}
+			}
+			acquired |= fl.mayExit
+			for i, name := range lm.names {
+				if !acquired.has(i) || (only != nil && !only(lm, i)) {
+					continue
+				}
+				key := fnName(fn) + ":" + name
+				switch {
+				case fl.adds.has(i):
+					c.S.Trivial("lock-balanced", key, c.Pos(fn.Pos()), "acquire wrapper: returns holding the lock on every path")
+				case fl.mayExit.has(i):
+					pos := fn.Pos()
+					if r := fl.leakAt[i]; r != nil {
+						pos = c.InstrPos(r)
+					}
+					c.S.Bad("lock-balanced", key, c.Pos(pos), fmt.Sprintf("%s can return with %s still held (acquired inside, not released on the path to this return)", fnName(fn), name))
+				default:
+					c.S.OK("lock-balanced", key, c.Pos(fn.Pos()), "released on every path to every return (including deferred releases)")
+				}
+			}
+		}
+	}
+}
